@@ -998,6 +998,36 @@ def n_ast_walk(eng, args, kwargs, st):
     return ok(st.alloc(HList(out)), st)
 
 
+def lift_real(v, st):
+    """a real Python value (incl. real ast nodes) as a modelled value"""
+    if isinstance(v, dict):
+        d = HDict()
+        for k, x in v.items():
+            d.set(k, lift_real(x, st))
+        return st.alloc(d)
+    if isinstance(v, list):
+        return st.alloc(HList([lift_real(x, st) for x in v]))
+    if isinstance(v, tuple):
+        return tuple(lift_real(x, st) for x in v)
+    if isinstance(v, ast.AST):
+        o = HObj("ast." + type(v).__name__)
+        for k, x in vars(v).items():
+            o.attrs[k] = lift_real(x, st)
+        return st.alloc(o)
+    return v
+
+
+def n_ast_parse(eng, args, kwargs, st):
+    """ast.parse of a CONCRETE source text is a pure function: the real parser runs and its tree is lifted (symbolic text: outside the subset)"""
+    if len(args) >= 1 and isinstance(args[0], str) and all(_concrete(a) for a in args[1:]) and all(_concrete(v) for v in kwargs.values()):
+        try:
+            tree = ast.parse(*args, **kwargs)
+        except SyntaxError as e:
+            return err("SyntaxError", str(e), st)
+        return ok(lift_real(tree, st), st)
+    raise Unsupported("ast.parse of a symbolic text")
+
+
 def n_fix_missing_locations(eng, args, kwargs, st):
     eng.assumed.add("ast.fix_missing_locations: sets position attributes only and returns its argument")
     return ok(args[0], st)
@@ -1012,7 +1042,7 @@ def n_identity(eng, args, kwargs, st):
 
 
 NATIVE = {
-    ast.fix_missing_locations: n_fix_missing_locations, itertools.filterfalse: n_filterfalse, copy.deepcopy: n_deepcopy, ast.walk: n_ast_walk, ast.iter_child_nodes: n_iter_child_nodes,
+    ast.parse: n_ast_parse, ast.fix_missing_locations: n_fix_missing_locations, itertools.filterfalse: n_filterfalse, copy.deepcopy: n_deepcopy, ast.walk: n_ast_walk, ast.iter_child_nodes: n_iter_child_nodes,
     len: n_len, isinstance: n_isinstance, type: n_type, int: n_int, float: n_float, bool: n_bool, str: n_str,
     complex: n_complex, sum: n_sum, any: n_any, all: n_all, map: n_map, filter: n_filter,
     enumerate: n_enumerate, range: n_range, next: n_next, iter: n_iter, tuple: n_tuple, list: n_list,
